@@ -13,6 +13,8 @@
 //   tt.raw
 //   tpl.add <row> | tpl.get <id> | tpl.update <row> | tpl.remove <id> | tpl.exists <id> | tpl.ids | tpl.raw
 //   tpe.add <row> <throw_if_duplicate> | tpe.get <list> <track> | tpe.remove <list> <entity> | tpe.clear <list> | tpe.raw
+//   tpe.get3 <list> <track> <uuid hex> | tpe.list <list> | tpe.tracks <list>
+//   tt.sql <hex sql>             raw SQL through the C API on the library's connection (probe planting)
 //   inf.get | inf.setcpi <v> | inf.raw
 #include <chrono>
 #include <cstring>
@@ -442,6 +444,44 @@ DJV_CMD(pe_clear, "tpe.clear")
     return "";
 }
 DJV_CMD(pe_raw, "tpe.raw") { return raw_table("PlaylistEntity"); }
+// get(list, track, database uuid)
+DJV_CMD(pe_get3, "tpe.get3")
+{
+    auto r = LIB().playlist_entity().get(parse_i64(a.at(1)), parse_i64(a.at(2)), parse_hexstr(a.at(3)));
+    return r ? wr_entity_row(*r) : "none";
+}
+// get_for_list: the rows in list order, separated by " | "
+DJV_CMD(pe_list, "tpe.list")
+{
+    auto rows = LIB().playlist_entity().get_for_list(parse_i64(a.at(1)));
+    std::string out = "[";
+    bool first = true;
+    for (auto& r : rows)
+    {
+        out += (first ? "" : " | ") + wr_entity_row(r);
+        first = false;
+    }
+    return out + "]";
+}
+DJV_CMD(pe_tracks, "tpe.tracks")
+{
+    return id_list(LIB().playlist_entity().track_ids(parse_i64(a.at(1))), false);
+}
+// Arbitrary SQL on the library's own connection through the C API (no library code): used by
+// the binding cross-check to plant raw column values.  <hex of the UTF-8 SQL text>
+DJV_CMD(tt_sql, "tt.sql")
+{
+    auto sql = parse_hexstr(a.at(1));
+    char* err = nullptr;
+    int rc = sqlite3_exec(lib::main_handle(), sql.c_str(), nullptr, nullptr, &err);
+    if (rc != SQLITE_OK)
+    {
+        std::string m = err ? err : "?";
+        sqlite3_free(err);
+        throw bad_command{"sql: " + m};
+    }
+    return "";
+}
 
 // ---------------------------------------------------------------- Information
 DJV_CMD(inf_get, "inf.get")
